@@ -331,6 +331,34 @@ def _(p):
     return None
 
 
+@replay("c04_native_replay")
+def _(p):
+    import pickle
+
+    from formulaic import model_matrix
+
+    df = mc.full_frame(_A_TRAIN, _B_TRAIN)
+    kw = {"materializer": p["materializer"]} if p.get("materializer") else {}
+    out = p["output"]
+    dense = lambda m: numpy.asarray(m.todense() if out == "sparse" else m, dtype=float).reshape((-1, len(m.model_spec.column_names)))
+    mm = model_matrix(p["formula"], df, output=out, **kw)
+    ref = dense(mm)
+    names = list(mm.model_spec.column_names)
+    for spec, how in ((mm.model_spec, "spec"), (pickle.loads(pickle.dumps(mm.model_spec)), "pickled spec")):
+        for rows in ([0, 1, 2, 3, 4, 5, 6], [6, 2, 2], [3], [1, 5, 0], [4, 4, 4, 0]):
+            sub = df.iloc[rows].reset_index(drop=True)
+            try:
+                got = spec.get_model_matrix(sub)
+            except Exception as e:
+                return f"replay-raises: {p['formula']!r} ({out}): {how} on rows {rows} raised {type(e).__name__}: {str(e)[:100]}"
+            if list(got.model_spec.column_names) != names:
+                return f"names-differ: {p['formula']!r} ({out}): {how} on rows {rows} gives columns {list(got.model_spec.column_names)[:6]}"
+            g = dense(got)
+            if g.shape != (len(rows), len(names)) or not numpy.allclose(g, ref[rows], rtol=1e-9, atol=1e-12, equal_nan=True):
+                return f"rows-differ: {p['formula']!r} ({out}): {how} on rows {rows} does not reproduce the recorded rows"
+    return None
+
+
 # ------------------------------------------------------------------------------------------------ C03
 
 
